@@ -71,7 +71,7 @@ type src struct {
 	unames []string
 	pairs  [][2]int
 	// subquery / CTE reference
-	q       *query
+	q       *qry
 	asCTE   bool
 	cteName string
 	// recursive generation reference
@@ -82,7 +82,7 @@ type src struct {
 	cost   int // nested-loop pairs evaluated in this subtree
 }
 
-type query struct {
+type qry struct {
 	from  *src
 	where *cond
 	star  bool
@@ -203,7 +203,7 @@ func sqlSrc(s *src) string {
 	return side(s.l) + " NATURAL " + kw + " " + side(s.r)
 }
 
-func sqlSelectList(q *query, extra string) string {
+func sqlSelectList(q *qry, extra string) string {
 	var items []string
 	if extra != "" {
 		items = append(items, extra)
@@ -218,7 +218,7 @@ func sqlSelectList(q *query, extra string) string {
 	return strings.Join(items, ", ")
 }
 
-func sqlWith(q *query) string {
+func sqlWith(q *qry) string {
 	if len(q.ctes) == 0 {
 		return ""
 	}
@@ -229,7 +229,7 @@ func sqlWith(q *query) string {
 	return "WITH " + strings.Join(defs, ", ") + " "
 }
 
-func sqlQuery(q *query) string {
+func sqlQuery(q *qry) string {
 	s := sqlWith(q) + "SELECT " + sqlSelectList(q, "") + " FROM " + sqlSrc(q.from)
 	if q.where != nil {
 		s += " WHERE " + sqlCond(q.where, q.from.layout, nil)
@@ -342,7 +342,7 @@ func (e *enc) src(s *src) []string {
 	return out
 }
 
-func (e *enc) query(q *query) []string {
+func (e *enc) query(q *qry) []string {
 	out := []string{"Q"}
 	out = append(out, e.src(q.from)...)
 	if q.where == nil {
@@ -454,18 +454,24 @@ var colNames = []string{"k", "v", "w", "x"}
 func sizeOf(g *hc.Gen, class int) int {
 	switch class {
 	case 0:
-		return []int{0, 0, 1, 2, 3, 5, 8}[g.Intn(7)]
+		return []int{0, 1, 2, 3, 4, 5, 8, 9}[g.Intn(8)]
 	case 1:
 		return 10 + g.Intn(70)
 	}
 	return 160 + g.Intn(241)
 }
 
-// newTables declares t1..t4 (one small, one medium, one large, one of any class) over shared value pools
+var epoch int
+
+// newTables declares four tables (one small, one medium, one large, one of any class) over shared value pools.
+// The names are fresh in every epoch: a sub-select over a temporary table rewrites the table's FileInfo
+// (load_view.go: `view.FileInfo.ViewType = ViewTypeInlineTable`, `Path = ""` on the shared pointer), after which
+// DISPOSE VIEW no longer finds the table — outside C03, reported separately.
 func newTables(g *hc.Gen, pr *hc.Proc, o *hc.Out, old []*table) []*table {
 	for _, t := range old {
 		pr.DisposeTable(t.name)
 	}
+	epoch++
 	keys := pool(g, 3+g.Intn(5), false)
 	pay := pool(g, 4+g.Intn(6), true)
 	var out []*table
@@ -475,7 +481,7 @@ func newTables(g *hc.Gen, pr *hc.Proc, o *hc.Out, old []*table) []*table {
 			class = g.Intn(3)
 		}
 		n := sizeOf(g, class)
-		t := &table{name: "t" + strconv.Itoa(i+1), cols: []string{"k"}}
+		t := &table{name: fmt.Sprintf("t%d_%d", epoch, i+1), cols: []string{"k"}}
 		for _, c := range colNames[1:] {
 			if g.Intn(2) == 0 {
 				t.cols = append(t.cols, c)
@@ -544,15 +550,15 @@ func (x *qgen) operand(ll, rl []col) expr {
 	return expr{lit: x.anyLit()}
 }
 
-var cops = []string{"=", "=", "=", "<", "<=", ">", ">=", "<>", "=="}
+var cops = []string{"=", "=", "<", "<=", "<=", ">", ">=", ">=", "<>", "<>", "=="}
 
 func (x *qgen) cond(depth int, ll, rl []col) *cond {
 	g := x.g
 	if depth > 0 && g.Intn(100) < 40 {
-		switch g.Intn(5) {
+		switch g.Intn(6) {
 		case 0, 1:
 			return &cond{op: "and", a: x.cond(depth-1, ll, rl), b: x.cond(depth-1, ll, rl)}
-		case 2, 3:
+		case 2, 3, 4:
 			return &cond{op: "or", a: x.cond(depth-1, ll, rl), b: x.cond(depth-1, ll, rl)}
 		}
 		return &cond{op: "not", a: x.cond(depth-1, ll, rl)}
@@ -866,8 +872,8 @@ func (x *qgen) tree(n, nest, maxRows int) *src {
 	}
 	l := x.tree(n-1, nest, maxRows)
 	lim := maxRows
-	if l.est > 0 && 25000/l.est < lim {
-		lim = 25000 / l.est
+	if l.est > 0 && 6000/l.est < lim {
+		lim = 6000 / l.est
 		if x.g.Intn(3) == 0 {
 			lim = maxRows // equi-joins may still fit; the caller re-draws when the bound is exceeded
 		}
@@ -887,7 +893,7 @@ func uniqueNames(lay []col) bool {
 	return true
 }
 
-func (x *qgen) query(nest int, top bool, maxRows int) *query {
+func (x *qgen) query(nest int, top bool, maxRows int) *qry {
 	g := x.g
 	saved := x.ctes
 	x.ctes = nil
@@ -897,10 +903,10 @@ func (x *qgen) query(nest int, top bool, maxRows int) *query {
 	} else {
 		n = []int{1, 1, 1, 1, 2, 2, 2, 3}[g.Intn(8)]
 	}
-	q := &query{from: x.tree(n, nest, maxRows)}
+	q := &qry{from: x.tree(n, nest, maxRows)}
 	lay := q.from.layout
-	if g.Intn(100) < 65 {
-		q.where = x.cond(2+g.Intn(2), lay, nil)
+	if (top && g.Intn(100) < 60) || (!top && g.Intn(100) < 40) {
+		q.where = x.cond(1+g.Intn(3), lay, nil)
 	}
 	if (top || uniqueNames(lay)) && g.Intn(100) < 40 {
 		q.star = true
@@ -982,7 +988,7 @@ func topOp(c *cond) string {
 	return c.op
 }
 
-func queryShape(q *query, o *hc.Out, depth int) string {
+func queryShape(q *qry, o *hc.Out, depth int) string {
 	if o != nil {
 		o.Count("where_shape:" + topOp(q.where))
 		if q.star {
@@ -1017,7 +1023,10 @@ func run(seed int64, n int, dir string, _ []string) {
 	defer o.Close()
 	pr := hc.NewProc("")
 	defer pr.Close()
-	_ = os.Getenv("VERIF_SCRATCH")
+
+	// readable samples (the op lines carry whole tables and are far too long for the evidence file)
+	var samples []string
+	defer func() { o.Samples = samples }()
 
 	// the pre-finding F15 witness runs first on every run
 	lateralWitness(pr, o)
@@ -1041,7 +1050,7 @@ func run(seed int64, n int, dir string, _ []string) {
 		cpu := []int{1, 1, 2, 3, 4, 8}[g.Intn(6)]
 		pr.SetCPU(cpu)
 
-		var q *query
+		var q *qry
 		for try := 0; ; try++ {
 			x.nAlias, x.nCTE = 0, 0
 			maxRows := 400
@@ -1049,7 +1058,7 @@ func run(seed int64, n int, dir string, _ []string) {
 				maxRows = 30
 			}
 			q = x.query(3, true, maxRows)
-			if q.est <= 25000 && q.cost <= 170000 && maxEst(q.from) <= 25000 {
+			if q.est <= 6000 && q.cost <= 120000 && maxEst(q.from) <= 12000 {
 				break
 			}
 			o.Count("generator:redraw")
@@ -1059,6 +1068,16 @@ func run(seed int64, n int, dir string, _ []string) {
 		if err != nil {
 			o.Law("select_sql_error", map[string]interface{}{"sql": sql, "error": err.Error(), "tables": dumpTables(x.tables)})
 			continue
+		}
+		if len(samples) < 8 && i%37 == 0 {
+			sm := sql
+			if len(sm) > 700 {
+				sm = sm[:700] + "…"
+			}
+			samples = append(samples, fmt.Sprintf("cpu=%d %s  =>  width %d, %d rows", cpu, sm, v.FieldLen(), v.RecordLen()))
+		}
+		if os.Getenv("C03_DEBUG") != "" {
+			fmt.Fprintf(os.Stderr, "%d\t%s\n", v.RecordLen(), sql)
 		}
 		e := newEnc()
 		plan := strings.Join(e.query(q), " ")
